@@ -264,6 +264,28 @@ def execute(spec):
             scale = max(abs(want), 1.0)
             if abs(m - ref) > 0.02 * scale + (1.0 if discrete else 0.0):
                 viol("documented_mean", f"quantile-averaged mean of the draws is {m:.6g}; the documented law (mean {want:.6g}) gives {ref:.6g} on the same grid")
+        # ---- draws through the library's default generator (no rng argument): the stream is the library's one generator,
+        # whichever object asks -- the parsed one or copies of it (Molecule.elements and gen_mirror hand out deep copies).
+        # With the generator put back to one state, n draws by the object and one draw by each of n fresh copies coincide.
+        try:
+            import copy as _copy
+
+            grng = g.core._GLOBAL_RNG
+            st = grng.bit_generator.state
+            a = [float(dist.draw_mw()) for _ in range(4)]
+            grng.bit_generator.state = st
+            b = [float(_copy.deepcopy(dist).draw_mw()) for _ in range(4)]
+            grng.bit_generator.state = st
+            stats["default_generator_sequences"] = 1
+            if a != b:
+                viol("default_generator_draws_differ_for_copies",
+                     f"with the library's generator in one state, four draws by the object give {a}, one draw by each of four deep copies {b}")
+        except DrawDiverges:
+            pass
+        except SimAbort:
+            raise
+        except Exception:
+            pass  # draws that raise are judged above
         # ---- coherence clauses (no schedule in them) -----------------------------------------
         for name, what in unknown_name_check():
             viol("unknown_name_accepted", f"get_distribution({name!r}) gave {what}")
